@@ -36,6 +36,9 @@ class ChildrenProgram(MailboxProgram):
                 self.put(st, '_reg_' + h, c)
             else:
                 self.put(st, '_reg_' + h, self.take(st, h))
+            if how == 'both':       # registered twice by the same parent: add_child(clone) and register_child::<M>(handle)
+                st, c = self.call(st, '<Addr<A> as Clone>::clone', [self.href(st, '_reg_' + h)])
+                self.put(st, '_reg2_' + h, c)
         for i, op in enumerate(self.pre):
             for s2, fut in self.start_op(st, 'pre', i, op):
                 if fut is not None or s2 is not st:
@@ -90,7 +93,7 @@ def oracle_children(tr, status, spec):
             ended = status == 'quiescent'
             src = next((x[2] for x in reversed(tr[:i]) if x[0] == 'bcast_from' and x[1] == tag), 'ctx0')
             want = 'add_child' if str(tag).startswith('u') else 'register_child'
-            targets = [ctx_of[h] for (h, how, kept, par) in reg if how == want and ctx_of[par] == src]
+            targets = [ctx_of[h] for (h, how, kept, par) in reg if how in (want, 'both') and ctx_of[par] == src]
             for c in targets:
                 cterm = term_of(c)
                 alive_then = cterm is None or cterm > i
